@@ -85,7 +85,8 @@ structure Cfg where
   cleanup : Int
   /-- a browser re-queries a held PTR at these per-mille of its TTL, each no earlier than `refreshEarly` before (a refreshed
   record keeps a schedule that is within one `browserTime` of its new 75 % point: "avoid churn") and within `refreshWin` after -/
-  refreshAt : List Int
+  refresh1 : Int
+  refresh2 : Int
   refreshEarly : Int
   refreshWin : Int
   deriving DecidableEq, Repr
@@ -94,7 +95,7 @@ structure Cfg where
 @[reducible] def Cfg.paper : Cfg :=
   { regDelay := 350, ann := [350, 575, 800], updAnn := [0, 225, 450], bye := [0, 125, 250], maxDelay := 100,
     qLo := 20, qHi := 120, qOff := [0, 1000, 5000, 14000], dupQ := 999, respBefore := 1000, respAfter := 1200,
-    ptrMinTtl := 1125, cleanup := 10000, refreshAt := [750, 850], refreshEarly := 10000, refreshWin := 25000 }
+    ptrMinTtl := 1125, cleanup := 10000, refresh1 := 750, refresh2 := 850, refreshEarly := 10000, refreshWin := 25000 }
 
 def startupOffsets : Nat → Int → Int → List Int
   | 0, _, _ => []
@@ -111,8 +112,8 @@ def Cfg.gen : Cfg :=
     respBefore := (Gen.duplicatePacketSuppressionInterval : Nat),
     respAfter := ((Gen.oneSecond + Gen.protectedAggregationDelay : Nat) : Int),
     ptrMinTtl := Gen.dnsPtrMinTtl, cleanup := ((Gen.cacheCleanupInterval * 1000 : Nat) : Int),
-    refreshAt := [((Gen.expireRefreshTimePercent * 10 : Nat) : Int),
-                  ((Gen.expireRefreshTimePercent * 10 + Gen.rescueRecordRetryTtlPercentagePerMille : Nat) : Int)],
+    refresh1 := ((Gen.expireRefreshTimePercent * 10 : Nat) : Int),
+    refresh2 := ((Gen.expireRefreshTimePercent * 10 + Gen.rescueRecordRetryTtlPercentagePerMille : Nat) : Int),
     refreshEarly := (Gen.browserTime : Nat),
     -- one scheduler pass at most `browserTime` late, or (a browser that starts late) the start-up phase first
     refreshWin := ((Gen.browserTime + 15000 : Nat) : Int) }
@@ -421,31 +422,45 @@ def asksWithout (ty : Nat) (s : Svc) (items : List Item) : Bool :=
     | .query ty' known qu => ty' == ty && !qu && !(known.contains s)
     | _ => false
 
-/-- host `h` multicasts such a question in `[lo - refreshEarly - dupQ, hi]`, or hears one (which suppresses its own) -/
-def refreshOpp (cfg : Cfg) (tr : Trace) (h ty : Nat) (s : Svc) (lo hi : Int) : Bool :=
-  ((sends tr).any fun sd => sd.h == h && sd.dst.isNone && lo - cfg.refreshEarly - cfg.dupQ ≤ sd.t && sd.t ≤ hi && asksWithout ty s sd.items)
-  || ((dlvs tr).any fun e => e.h == h && e.mc && lo - cfg.refreshEarly - cfg.dupQ ≤ e.t && e.t ≤ hi && asksWithout ty s e.items)
+/-- host `h` multicasts such a question at a time in `[a, b]`, or hears one (which suppresses its own) -/
+def refreshOpp (tr : Trace) (h ty : Nat) (s : Svc) (a b : Int) : Bool :=
+  ((sends tr).any fun sd => sd.h == h && sd.dst.isNone && a ≤ sd.t && sd.t ≤ b && asksWithout ty s sd.items)
+  || ((dlvs tr).any fun e => e.h == h && e.mc && a ≤ e.t && e.t ≤ b && asksWithout ty s e.items)
 
 /-- host `h` processes no PTR(`s`) (of any TTL) at a time in `(t1, t2]` -/
 def noPtrBetween (tr : Trace) (h : Nat) (s : Svc) (t1 t2 : Int) : Bool :=
   (dlvs tr).all fun e => !(e.h == h && (ptrOf s e.items).isSome && t1 < e.t && e.t ≤ t2)
 
-def refreshLo (due tb : Int) : Int := if due < tb then tb else due
+/-- the two refresh windows for a PTR processed at `t` with lifetime `e` seconds by a host whose browser started at `tb`.
+If the browser existed when the record reached 75 % of its life: around `t + 75 % e` and `t + 85 % e` (from `refreshEarly + dupQ`
+before — a refreshed record keeps a schedule within one `browserTime` of its new 75 % point, and a heard question suppresses —
+to `refreshWin` after).  If the browser started later (the record was already older): its third and fourth start-up
+questions (K3's windows) — by then the record is stale and is not listed. -/
+def refreshWindow (cfg : Cfg) (t e tb : Int) (second : Bool) : Int × Int :=
+  if tb ≤ t + cfg.refresh1 * e then
+    let due := t + (if second then cfg.refresh2 else cfg.refresh1) * e
+    (due - cfg.refreshEarly - cfg.dupQ, due + cfg.refreshWin)
+  else
+    let off := if second then cfg.qOff.getD 3 0 else cfg.qOff.getD 2 0
+    (tb + cfg.qLo + off - cfg.dupQ, tb + cfg.qHi + off)
 
-/-- K3b (C10): a browser's host that processed PTR(`s`) with TTL τ > 0 at `t` and no PTR(`s`) since, asks for the type again —
-not listing `s`, which is stale by then — within `refreshWin` of `t + 75 % τ` and again of `t + 85 % τ` (or of the browser's
-start if that is later), unless the record was refreshed or withdrawn by the end of that window -/
+def k3bAt (cfg : Cfg) (tr : Trace) (endT : Int) (h ty : Nat) (tb : Int) (t e : Int) (s : Svc) (second : Bool) : Bool :=
+  !((refreshWindow cfg t e tb second).2 ≤ endT && noPtrBetween tr h s t (refreshWindow cfg t e tb second).2)
+  || refreshOpp tr h ty s (refreshWindow cfg t e tb second).1 (refreshWindow cfg t e tb second).2
+
+/-- K3b (C10): a browser's host that processed PTR(`s`) with TTL τ > 0 at `t` and no PTR(`s`) since asks for the type again —
+not listing `s`, which is stale by then — in each of the two `refreshWindow`s, unless the record was refreshed or withdrawn
+by the end of that window -/
 def K3b (cfg : Cfg) (tr : Trace) (endT : Int) : Bool :=
   (browses tr).all fun b => !neverClosed tr b.2.host || (dlvs tr).all fun x => !(x.h == b.2.host) ||
-    (ptrSvcs x.items).all fun s => !(s.ty == b.2.ty && pos s x.items) || cfg.refreshAt.all fun k =>
+    (ptrSvcs x.items).all fun s => !(s.ty == b.2.ty && pos s x.items) ||
       match ptrOf s x.items with
       | none => true
       | some (ttl, _) =>
-        let lo := refreshLo (x.t + k * (effTtl cfg ttl / 1000)) b.1
-        !(lo + cfg.refreshWin ≤ endT && noPtrBetween tr b.2.host s x.t (lo + cfg.refreshWin))
-        || refreshOpp cfg tr b.2.host b.2.ty s lo (lo + cfg.refreshWin)
+        k3bAt cfg tr endT b.2.host b.2.ty b.1 x.t (effTtl cfg ttl / 1000) s false
+        && k3bAt cfg tr endT b.2.host b.2.ty b.1 x.t (effTtl cfg ttl / 1000) s true
 
-/-- KF (consequence of K3b, K4, K7 — monitored, see `C07_convergence_partial`): on a browsing host, the PTR of a registered
+/-- KF (a *theorem* from K3b, K4, K7 and the other contracts: `C07_fresh`; still monitored as a cross-check): on a browsing host, the PTR of a registered
 instance of the browsed type has not expired at the end of the window -/
 def KF (cfg : Cfg) (tr : Trace) (endT : Int) : Bool :=
   (browses tr).all fun b => !neverClosed tr b.2.host ||
